@@ -64,6 +64,7 @@ func newFnVC(sess *Session, fn *ssa.Function, c *Contract) *FnVC {
 	vc := &FnVC{sess: sess, fn: fn, contract: c, declared: map[string]string{}, nameCount: map[string]int{},
 		assumes: map[string]bool{}, externUsed: map[string]bool{}, obligSeq: map[string]int{}, coveredCallsites: map[string]bool{}}
 	vc.entry = vc.newEntryState()
+	defBodies = map[string]string{}
 	return vc
 }
 
@@ -100,6 +101,7 @@ func (vc *FnVC) define(name string, t Term) Term {
 		name = fmt.Sprintf("%s!d%d", name, vc.nameCount[name])
 	}
 	vc.declared[name] = t.Sort
+	defBodies[smtName(name)] = t.S
 	vc.emitDecl(fmt.Sprintf("(define-fun %s () %s %s)", smtName(name), t.Sort, t.S))
 	return Term{smtName(name), t.Sort}
 }
